@@ -532,7 +532,7 @@ def known_execute(case):
 
 
 PARTS = [
-    Part("histories", main_execute, strategy=main_strategy, budget={"quick": 1600, "thorough": 60000},
+    Part("histories", main_execute, strategy=main_strategy, budget={"quick": 1200, "thorough": 40000},
          procs={"quick": 8, "thorough": 16},
          rule="Hypothesis: pin-type assemblies (grid plate / shield / fuel or control x1-4 / plenum, aclp / duct block / fluid dummy "
               "on top; fuel, bond, clad, wire, duct, coolant; realistic or single materials; automatic or explicit target components; "
@@ -542,8 +542,8 @@ PARTS = [
               "positive heights, grid bounds, block top on its target, linked components stacked, component height = growth x old "
               "height, target mass conserved, all solids conserved and densities / growth under uniform growth, inverse restores. "
               "Non-trivial = at least two applied changes and two blocks whose targets grew differently"),
-    Part("known_shape", known_execute, strategy=known_strategy, budget={"quick": 160, "thorough": 3000},
-         procs={"quick": 2, "thorough": 8},
+    Part("known_shape", known_execute, strategy=known_strategy, budget={"quick": 120, "thorough": 2000},
+         procs={"quick": 4, "thorough": 8},
          rule="Hypothesis: assemblies with a plenum and automatic targets x 1-3 changes where the clad column below the plenum may "
               "grow differently from the fuel (the known finding's shape is NOT excluded); same oracle; keeps the known finding "
               "observed. Non-trivial as above"),
